@@ -5,7 +5,7 @@
 
 #include "lib.h"
 using namespace vf;
-using S = QP;
+using S = vf::DefaultScalar;
 using Sup = Support<S>;
 using PSet = std::set<size_t>;
 
